@@ -1,0 +1,404 @@
+//go:build verif
+
+package otr3
+
+// Hooks for the /verif machinery. Compiled only with `-tags verif`; add-only file.
+// Thin exported wrappers around unexported pure functions, plus state snapshots.
+
+import (
+	"fmt"
+	"math/big"
+	"sort"
+	"strings"
+	"time"
+)
+
+func verifVersion(v int) otrVersion {
+	if v == 2 {
+		return otrV2{}
+	}
+	return otrV3{}
+}
+
+func vhex(b []byte) string {
+	if len(b) == 0 {
+		return "-"
+	}
+	return fmt.Sprintf("%x", b)
+}
+
+func vbig(n *big.Int) string {
+	if n == nil {
+		return "nil"
+	}
+	return vhex(n.Bytes())
+}
+
+// VerifFragment runs Conversation.fragment with the given version and instance tags.
+func VerifFragment(v int, itags, itagr uint32, data []byte, size uint16) [][]byte {
+	c := &Conversation{version: verifVersion(v), ourInstanceTag: itags, theirInstanceTag: itagr}
+	return Bytes(c.fragment(encodedMessage(data), size))
+}
+
+// VerifFragmentPrefix exposes otrVersion.fragmentPrefix.
+func VerifFragmentPrefix(v int, n, total int, itags, itagr uint32) []byte {
+	return verifVersion(v).fragmentPrefix(n, total, itags, itagr)
+}
+
+// VerifParseFragment exposes parseFragment.
+func VerifParseFragment(body []byte) string {
+	d, ix, l, ok := parseFragment(body)
+	if !ok {
+		return "none"
+	}
+	return fmt.Sprintf("some %s %d %d", vhex(d), ix, l)
+}
+
+// VerifParseItag exposes parseItag.
+func VerifParseItag(s []byte) string {
+	v, err := parseItag(s)
+	if err != nil {
+		return "none"
+	}
+	return fmt.Sprintf("some %d", v)
+}
+
+// VerifBytesToUint16 exposes bytesToUint16.
+func VerifBytesToUint16(s []byte) string {
+	v, err := bytesToUint16(s)
+	if err != nil {
+		return "none"
+	}
+	return fmt.Sprintf("some %d", v)
+}
+
+// VerifB64Encode / VerifB64Decode expose the base64 helpers.
+func VerifB64Encode(b []byte) []byte { return b64encode(b) }
+func VerifB64Decode(b []byte) string {
+	r, err := b64decode(b)
+	if err != nil {
+		return "none"
+	}
+	return "some " + vhex(r)
+}
+
+// VerifGuessMessageType exposes guessMessageType.
+func VerifGuessMessageType(b []byte) int { return int(guessMessageType(b)) }
+
+// VerifFragAccept runs the index/total switch of receiveFragment on an OTRv2 fragment body
+// (no instance tags involved) starting from the given context.
+func VerifFragAccept(frag []byte, index, length uint16, body []byte) string {
+	c := &Conversation{version: otrV2{}}
+	c.Policies.AllowV2()
+	ctx, err := c.receiveFragment(fragmentationContext{frag, index, length}, append([]byte("?OTR,"), body...))
+	e := "nil"
+	if err != nil {
+		e = "err"
+	}
+	return fmt.Sprintf("%s %s %d %d %v", e, vhex(ctx.frag), ctx.currentIndex, ctx.currentLen, fragmentsFinished(ctx))
+}
+
+// VerifParse parses `msg` as the named structure and prints its fields canonically.
+func VerifParse(kind string, msg []byte) string {
+	switch kind {
+	case "dhcommit":
+		m := dhCommit{}
+		if m.deserialize(msg) != nil {
+			return "none"
+		}
+		return fmt.Sprintf("some %s %s", vhex(m.encryptedGx), vhex(m.yhashedGx))
+	case "dhkey":
+		m := dhKey{}
+		if m.deserialize(msg) != nil {
+			return "none"
+		}
+		return "some " + vbig(m.gy)
+	case "revealsig":
+		m := revealSig{}
+		if m.deserialize(msg, otrV3{}) != nil {
+			return "none"
+		}
+		return fmt.Sprintf("some %s %s %s", vhex(m.r[:]), vhex(m.encryptedSig), vhex(m.macSig))
+	case "sig":
+		m := sig{}
+		if m.deserialize(msg) != nil {
+			return "none"
+		}
+		return fmt.Sprintf("some %s %s", vhex(m.encryptedSig), vhex(m.macSig))
+	case "data":
+		m := dataMsg{}
+		if m.deserialize(msg, otrV3{}) != nil {
+			return "none"
+		}
+		var old []string
+		for _, k := range m.oldMACKeys {
+			old = append(old, vhex(k))
+		}
+		return fmt.Sprintf("some %d %d %d %s %s %s %s [%s] %s", m.flag, m.senderKeyID, m.recipientKeyID, vbig(m.y),
+			vhex(m.topHalfCtr[:]), vhex(m.encryptedMsg), vhex(m.authenticator), strings.Join(old, ","), vhex(m.serializeUnsignedCache))
+	case "plain":
+		m := plainDataMsg{}
+		err := m.deserialize(msg)
+		return fmt.Sprintf("%v %s %s", err == nil, vhex(m.message), verifTLVs(m.tlvs))
+	case "tlv":
+		m := tlv{}
+		if m.deserialize(msg) != nil {
+			return "none"
+		}
+		return "some " + verifTLVs([]tlv{m})
+	case "smp1", "smp1q", "smp2", "smp3", "smp4":
+		t := tlv{tlvValue: msg, tlvLength: uint16(len(msg))}
+		switch kind {
+		case "smp1":
+			t.tlvType = tlvTypeSMP1
+		case "smp1q":
+			t.tlvType = tlvTypeSMP1WithQuestion
+		case "smp2":
+			t.tlvType = tlvTypeSMP2
+		case "smp3":
+			t.tlvType = tlvTypeSMP3
+		case "smp4":
+			t.tlvType = tlvTypeSMP4
+		}
+		m, ok := t.smpMessage()
+		if !ok {
+			return "none"
+		}
+		return "some " + verifSMPMsg(m)
+	case "mpis":
+		rest, mpis, ok := ExtractMPIs(msg)
+		if !ok {
+			return "none"
+		}
+		var out []string
+		for _, x := range mpis {
+			out = append(out, vbig(x))
+		}
+		return fmt.Sprintf("some [%s] %s", strings.Join(out, ","), vhex(rest))
+	case "mpi":
+		rest, x, ok := ExtractMPI(msg)
+		if !ok {
+			return "none"
+		}
+		return fmt.Sprintf("some %s %s", vbig(x), vhex(rest))
+	case "dat":
+		rest, x, ok := ExtractData(msg)
+		if !ok {
+			return "none"
+		}
+		return fmt.Sprintf("some %s %s", vhex(x), vhex(rest))
+	case "word":
+		rest, x, ok := ExtractWord(msg)
+		if !ok {
+			return "none"
+		}
+		return fmt.Sprintf("some %d %s", x, vhex(rest))
+	case "short":
+		rest, x, ok := ExtractShort(msg)
+		if !ok {
+			return "none"
+		}
+		return fmt.Sprintf("some %d %s", x, vhex(rest))
+	case "long":
+		rest, x, ok := ExtractLong(msg)
+		if !ok {
+			return "none"
+		}
+		return fmt.Sprintf("some %d %s", x, vhex(rest))
+	}
+	return "unknown-kind"
+}
+
+func verifTLVs(ts []tlv) string {
+	var out []string
+	for _, t := range ts {
+		out = append(out, fmt.Sprintf("%d:%d:%s", t.tlvType, t.tlvLength, vhex(t.tlvValue)))
+	}
+	return "[" + strings.Join(out, ",") + "]"
+}
+
+func verifSMPMsg(m smpMessage) string {
+	switch x := m.(type) {
+	case smp1Message:
+		return fmt.Sprintf("smp1 %s %s %s %s %s %s %v %s", vbig(x.g2a), vbig(x.g3a), vbig(x.c2), vbig(x.c3), vbig(x.d2), vbig(x.d3), x.hasQuestion, vhex([]byte(x.question)))
+	case smp2Message:
+		return fmt.Sprintf("smp2 %s %s %s %s %s %s %s %s %s %s %s", vbig(x.g2b), vbig(x.g3b), vbig(x.c2), vbig(x.c3), vbig(x.d2), vbig(x.d3), vbig(x.pb), vbig(x.qb), vbig(x.cp), vbig(x.d5), vbig(x.d6))
+	case smp3Message:
+		return fmt.Sprintf("smp3 %s %s %s %s %s %s %s %s", vbig(x.pa), vbig(x.qa), vbig(x.cp), vbig(x.d5), vbig(x.d6), vbig(x.d7), vbig(x.ra), vbig(x.cr))
+	case smp4Message:
+		return fmt.Sprintf("smp4 %s %s %s", vbig(x.cr), vbig(x.d7), vbig(x.rb))
+	case smpMessageAbort:
+		return "abort"
+	}
+	return "?"
+}
+
+// VerifBuild serialises a structure from canonical field values (the inverse direction of VerifParse).
+func VerifBuild(kind string, nums []uint64, bs [][]byte) []byte {
+	bi := func(b []byte) *big.Int { return new(big.Int).SetBytes(b) }
+	switch kind {
+	case "dhcommit":
+		return dhCommit{encryptedGx: bs[0], yhashedGx: bs[1]}.serialize()
+	case "dhkey":
+		return dhKey{gy: bi(bs[0])}.serialize()
+	case "revealsig":
+		m := revealSig{encryptedSig: bs[1], macSig: bs[2]}
+		copy(m.r[:], bs[0])
+		return m.serialize(otrV3{})
+	case "sig":
+		return sig{encryptedSig: bs[0], macSig: bs[1]}.serialize(otrV3{})
+	case "data":
+		m := dataMsg{flag: byte(nums[0]), senderKeyID: uint32(nums[1]), recipientKeyID: uint32(nums[2]), y: bi(bs[0]),
+			encryptedMsg: bs[2], authenticator: bs[3]}
+		copy(m.topHalfCtr[:], bs[1])
+		for _, k := range bs[4:] {
+			m.oldMACKeys = append(m.oldMACKeys, macKey(k))
+		}
+		return m.serialize(otrV3{})
+	case "dataunsigned":
+		m := dataMsg{flag: byte(nums[0]), senderKeyID: uint32(nums[1]), recipientKeyID: uint32(nums[2]), y: bi(bs[0]), encryptedMsg: bs[2]}
+		copy(m.topHalfCtr[:], bs[1])
+		return m.serializeUnsigned()
+	case "plain":
+		m := plainDataMsg{message: bs[0]}
+		for i := 0; i+1 < len(nums); i += 2 {
+			m.tlvs = append(m.tlvs, tlv{tlvType: uint16(nums[i]), tlvLength: uint16(nums[i+1]), tlvValue: bs[1+i/2]})
+		}
+		return m.serialize()
+	case "plainpad":
+		m := plainDataMsg{message: bs[0]}
+		for i := 0; i+1 < len(nums); i += 2 {
+			m.tlvs = append(m.tlvs, tlv{tlvType: uint16(nums[i]), tlvLength: uint16(nums[i+1]), tlvValue: bs[1+i/2]})
+		}
+		return m.pad().serialize()
+	case "tlv":
+		return tlv{tlvType: uint16(nums[0]), tlvLength: uint16(nums[1]), tlvValue: bs[0]}.serialize()
+	case "smptlv":
+		var mpis []*big.Int
+		for _, b := range bs {
+			mpis = append(mpis, bi(b))
+		}
+		return genSMPTLV(uint16(nums[0]), mpis...).serialize()
+	case "smp1q":
+		m := smp1Message{g2a: bi(bs[0]), c2: bi(bs[1]), d2: bi(bs[2]), g3a: bi(bs[3]), c3: bi(bs[4]), d3: bi(bs[5]), hasQuestion: true, question: string(bs[6])}
+		return m.tlv().serialize()
+	case "mpis":
+		var mpis []*big.Int
+		for _, b := range bs {
+			mpis = append(mpis, bi(b))
+		}
+		return AppendMPIs(AppendWord(nil, uint32(len(mpis))), mpis...)
+	}
+	return nil
+}
+
+// VerifState is a canonical snapshot of a conversation's protocol state.
+type VerifState struct {
+	MsgState   int
+	Version    int
+	Policies   int
+	Whitespace int
+	AkeState   int
+	SmpState   int
+	OurKeyID   uint32
+	TheirKeyID uint32
+	Counters   [][4]uint64 // ourKeyID, theirKeyID, ourCounter, theirCounter (sorted)
+	MacHistory [][2]uint32 // ourKeyID, theirKeyID (sorted)
+	OldMACKeys int
+	MayRetx    int
+	Resend     [][]byte
+	FragIndex  uint16
+	FragLen    uint16
+	FragSize   int
+	OurTag     uint32
+	TheirTag   uint32
+	SSID       []byte
+	SentReveal bool
+	Injections int
+	HasAke     bool
+}
+
+// VerifSnapshot returns the protocol-relevant state of a conversation.
+func VerifSnapshot(c *Conversation) VerifState {
+	s := VerifState{
+		MsgState:   int(c.msgState),
+		Policies:   int(c.Policies),
+		Whitespace: int(c.whitespaceState),
+		OurKeyID:   c.keys.ourKeyID,
+		TheirKeyID: c.keys.theirKeyID,
+		OldMACKeys: len(c.keys.oldMACKeys),
+		MayRetx:    int(c.resend.mayRetransmit),
+		FragIndex:  c.fragmentationContext.currentIndex,
+		FragLen:    c.fragmentationContext.currentLen,
+		FragSize:   len(c.fragmentationContext.frag),
+		OurTag:     c.ourInstanceTag,
+		TheirTag:   c.theirInstanceTag,
+		SSID:       append([]byte{}, c.ssid[:]...),
+		SentReveal: c.sentRevealSig,
+		Injections: len(c.injections.messages),
+		HasAke:     c.ake != nil,
+	}
+	if c.version != nil {
+		s.Version = int(c.version.protocolVersion())
+	}
+	if c.ake != nil && c.ake.state != nil {
+		s.AkeState = c.ake.state.identity()
+	}
+	if c.smp.state != nil {
+		s.SmpState = c.smp.state.identity() + 1
+	}
+	for _, k := range c.keys.counterHistory.counters {
+		s.Counters = append(s.Counters, [4]uint64{uint64(k.ourKeyID), uint64(k.theirKeyID), k.ourCounter, k.theirCounter})
+	}
+	sort.Slice(s.Counters, func(i, j int) bool {
+		a, b := s.Counters[i], s.Counters[j]
+		if a[0] != b[0] {
+			return a[0] < b[0]
+		}
+		return a[1] < b[1]
+	})
+	for _, k := range c.keys.macKeyHistory.items {
+		s.MacHistory = append(s.MacHistory, [2]uint32{k.ourKeyID, k.theirKeyID})
+	}
+	sort.Slice(s.MacHistory, func(i, j int) bool {
+		a, b := s.MacHistory[i], s.MacHistory[j]
+		if a[0] != b[0] {
+			return a[0] < b[0]
+		}
+		return a[1] < b[1]
+	})
+	for _, m := range c.resend.pending() {
+		s.Resend = append(s.Resend, append([]byte{}, m.m...))
+	}
+	return s
+}
+
+// VerifShiftClock moves every time stamp stored in the conversation d into the past,
+// which is how the harness implements a virtual clock.
+func VerifShiftClock(c *Conversation, d time.Duration) {
+	if !c.heartbeat.lastSent.IsZero() {
+		c.heartbeat.lastSent = c.heartbeat.lastSent.Add(-d)
+	}
+	if !c.lastMessageStateChange.IsZero() {
+		c.lastMessageStateChange = c.lastMessageStateChange.Add(-d)
+	}
+	if c.ake != nil && !c.ake.lastStateChange.IsZero() {
+		c.ake.lastStateChange = c.ake.lastStateChange.Add(-d)
+	}
+}
+
+// VerifPkgSlices reports len and cap of the package level byte slices that are used as append prefixes.
+func VerifPkgSlices() map[string][2]int {
+	return map[string][2]int{
+		"queryMarker":              {len(queryMarker), cap(queryMarker)},
+		"errorMarker":              {len(errorMarker), cap(errorMarker)},
+		"msgMarker":                {len(msgMarker), cap(msgMarker)},
+		"defaultResentPrefix":      {len(defaultResentPrefix), cap(defaultResentPrefix)},
+		"whitespaceTagHeader":      {len(whitespaceTagHeader), cap(whitespaceTagHeader)},
+		"dsaKeyType":               {len(dsaKeyType), cap(dsaKeyType)},
+		"otrv2FragmentationPrefix": {len(otrv2FragmentationPrefix), cap(otrv2FragmentationPrefix)},
+		"otrv3FragmentationPrefix": {len(otrv3FragmentationPrefix), cap(otrv3FragmentationPrefix)},
+		"fragmentSeparator":        {len(fragmentSeparator), cap(fragmentSeparator)},
+		"fragmentItagsSeparator":   {len(fragmentItagsSeparator), cap(fragmentItagsSeparator)},
+	}
+}
